@@ -281,7 +281,7 @@ def run(ctx):
     ctx.run("C03-G1", "place tags are indexed by place position", g1_tag_positions, floor=1)
     try:
         from . import c05
-        ctx.run("C05-R1", "schedule recurrence of the forward pass (arrival / departure / carry / total duration)", c05.r1_schedule_recurrence, floor=8)
+        ctx.run("C05-R1", "schedule recurrence of the forward pass (arrival / departure / carry / total duration)", c05.r1_schedule_recurrence, floor=1)
     except (ImportError, AttributeError):
         pass
     ctx.run("C03-U1", "cost coefficients multiply quantities of their own unit", u1_units, floor=4)
